@@ -23,13 +23,16 @@ RULE = ("Goals A1 --> ... --> An --> C from a typed grammar over bool/nat/int/re
         "families: valid-by-construction schemes (propositional, arithmetic, quantifier, set, congruence) and near-miss "
         "schemes that are valid only under a deviating semantics (nat binders over the integers, of_nat of a bound "
         "variable as one constant, positive nat variables, plain nat minus, non-zero divisors, function equality, float "
-        "fractions, goals on which z3 answers unknown); the rest is random. Entry points: z3wrapper.solve(goal), "
+        "fractions, goals on which z3 answers unknown); the rest is random. In 30 % of the z3 cases the binder names are "
+        "re-drawn from a small pool (terms are de Bruijn, so the meaning is unchanged) to make binders clash with "
+        "enclosing binders, free variables and the binders of the unfolded library theorems. Entry points: z3wrapper.solve(goal), "
         "Z3Macro.eval(concl, prevs) (also: hypotheses = union of the premises' hypotheses, conclusion = the argument), "
         "SymPyMacro.can_eval/eval with 0 or 1 interval premise. Oracle, soundness direction only, when the step accepts: "
         "(1) an independent guard-correct z3 encoding of the negated goal gives a model, (2) the model counts only if "
         "the evaluator of vlib.c06_lib evaluates every premise to True and the conclusion to False under HOL semantics "
         "(quantifiers over a finite partition of the type: points plus intervals evaluated abstractly), (3) bounded "
-        "enumeration of assignments through the same evaluator. SymPy goals: exact/interval evaluation (vlib.arith) at a "
+        "enumeration of assignments through the same evaluator. SymPy goals (families over + - * / ^ abs and, in 12 %, sqrt / log / exp / real power with the identities SymPy "
+        "applies by itself): exact/interval evaluation (vlib.arith) at a "
         "rational grid of the interval, its admissible end points, constants of the goal and their combinations. "
         "Non-trivial = the step accepted the goal; distinct by canonical JSON.")
 ASSUMPTIONS = [
@@ -215,6 +218,39 @@ def close(body, name, T, depth=0):
     if tag == 'b':
         return body
     return body
+
+
+def rebind(j, g, pool):
+    """Rename binders at random (meaning-preserving: bound variables are indices)."""
+    tag = j[0]
+    if tag == 'app':
+        return ['app', rebind(j[1], g, pool), rebind(j[2], g, pool)]
+    if tag == 'abs':
+        return ['abs', g.pick(pool) if g.chance(0.7) else j[1], j[2], rebind(j[3], g, pool)]
+    return j
+
+
+def binder_name_clash(j, free=None, enclosing=()):
+    """A binder named like an enclosing binder or like a free variable of the term."""
+    if free is None:
+        free = set()
+
+        def fv(t):
+            if t[0] == 'v':
+                free.add(t[1])
+            elif t[0] == 'app':
+                fv(t[1]), fv(t[2])
+            elif t[0] == 'abs':
+                fv(t[3])
+        fv(j)
+    tag = j[0]
+    if tag == 'app':
+        return binder_name_clash(j[1], free, enclosing) or binder_name_clash(j[2], free, enclosing)
+    if tag == 'abs':
+        if j[1] in enclosing or j[1] in free:
+            return True
+        return binder_name_clash(j[3], free, enclosing + (j[1],))
+    return False
 
 
 def quant(q, name, T, body):
@@ -810,6 +846,40 @@ class G:
             return [], IFF(fe, V('b1', BOOL))
         return [], IMP(fe, self.junk())
 
+    def fam_nm_capture(self):
+        """forall a. exists b. R a b with both binders carrying the SAME name (built on indices): invalid, but valid
+        if the inner binder captures the occurrences of the outer one (R b b is satisfiable). Also reached through
+        the binders of the set theorems the wrapper unfolds (named x)."""
+        r = self.r
+        T = self.pick(['nat', 'int', 'int', 'real'])
+        J = JT[T]
+        nm = self.pick(['x', 'x', 'k', 'u', 'y', 'n'])
+        a, b = V('#a', J), V('#b', J)
+        c = r.randrange(2, 5)
+        rels = [eq(J, a, mul(J, lit(J, c), b)), eq(J, a, mul(J, b, b)), eq(J, add(J, a, lit(J, 1)), mul(J, lit(J, c), b)),
+                eq(J, mul(J, lit(J, c), b), a), AND(le(J, b, a), le(J, mul(J, lit(J, c), a), b))]
+        if T != 'nat':
+            rels.append(eq(J, a, add(J, mul(J, b, b), lit(J, 1))) if T == 'real' else eq(J, a, mul(J, lit(J, -c), b)))
+        R = self.pick(rels)
+
+        def bind(q, var, body):
+            # bind under the common name nm
+            return ap(C(q, fun(fun(J, BOOL), BOOL)), ["abs", nm, J, close(body, var[1], J)])
+        inner = bind("exists", b, R)
+        k = r.randrange(6)
+        if k == 0:
+            return [], bind("all", a, inner)
+        if k == 1:
+            return [], NOT(bind("exists", a, NOT(inner)))
+        if k == 2:
+            return [self.boolean(1)], bind("all", a, inner)
+        setc = ap(C("collect", fun(fun(J, BOOL), SET(J))), ["abs", self.pick(['y', nm]), J, close(inner, a[1], J)])
+        if k == 3:
+            return [], eq(SET(J), setc, C("univ", SET(J)))
+        if k == 4:
+            return [], subset(J, C("univ", SET(J)), setc)
+        return [], bind("all", a, mem(J, a, setc))
+
     def fam_nm_float(self):
         r = self.r
         x = self.pick([V('x', REAL), lit(REAL, 0), lit(REAL, 1)])
@@ -852,7 +922,8 @@ class G:
 
     FAMILIES = [('random', 22), ('valid_prop', 8), ('valid_arith', 17), ('valid_quant', 10), ('valid_set', 8),
                 ('valid_fun', 4), ('nm_nat_binder', 12), ('nm_of_nat_bound', 3), ('nm_nat_var', 3),
-                ('nm_nat_minus', 4), ('nm_div', 3), ('nm_fun_eq', 2.5), ('nm_float', 1.5), ('nm_unknown', 2)]
+                ('nm_nat_minus', 4), ('nm_div', 3), ('nm_fun_eq', 2.5), ('nm_float', 1.5), ('nm_unknown', 2),
+                ('nm_capture', 3)]
 
     def z3_case(self):
         tot = sum(w for _, w in self.FAMILIES)
@@ -873,6 +944,12 @@ class G:
             pool = [V('H1', BOOL), V('H2', BOOL), eq(NAT, V('m', NAT), V('m', NAT)), V('H3', BOOL)]
             for _ in prems:
                 hyps.append([self.pick(pool) for _ in range(self.pick([0, 0, 1, 2]))])
+        if self.chance(0.3):
+            # bound names carry no meaning (terms are de Bruijn): reuse names of enclosing binders, of free variables
+            # and of the binders of the library theorems the wrapper unfolds with
+            pool = ['x', 'x', 'y', 'k', 'n', 'm', 'i', 'rn', 'A'] + [self.pick(['x', 'k', 'u', 'w'])] * 3
+            prems = [rebind(p, self, pool) for p in prems]
+            concl = rebind(concl, self, pool)
         return {'entry': entry, 'fam': fam, 'prems': prems, 'concl': concl, 'hyps': hyps}
 
 
@@ -929,8 +1006,47 @@ class GS(G):
             return mul(J, a, b), va * vb
         return div(a, b), (va / vb if vb != 0 else None)
 
+    def sympy_partial(self):
+        """Goals through sqrt / log / exp / real power: identities SymPy applies on its own (exp(log u) = u,
+        sqrt(u)**2 = u, u**a * u**b = u**(a+b)) hold in the library only on part of the line."""
+        r = self.r
+        x = V('x', REAL)
+        rf = lambda name, a: ap(C(name, fun(REAL, REAL)), a)
+        rpow = lambda a, b: ap(C("power", fun(REAL, REAL, REAL)), a, b)
+        one, two, half = lit(REAL, 1), lit(REAL, 2), lit(REAL, Fraction(1, 2))
+        c = lit(REAL, self.pick([-4, -1, 0, 1, 2, 4, 9, Fraction(1, 4), -2]))
+        u = self.pick([x, x, x, c, c, sub(REAL, x, one), add(REAL, x, one), power(REAL, x, 2), neg(REAL, x), mul(REAL, two, x)])
+        pairs = [(rf('exp', rf('log', u)), u), (power(REAL, rf('sqrt', u), 2), u), (mul(REAL, rf('sqrt', u), rf('sqrt', u)), u),
+                 (mul(REAL, rpow(u, half), rpow(u, half)), u), (mul(REAL, rpow(u, neg(REAL, one)), u), one),
+                 (rf('log', rf('exp', u)), u), (rf('sqrt', power(REAL, u, 2)), u), (rf('sqrt', power(REAL, u, 2)), absv(REAL, u)),
+                 (rpow(rpow(u, two), half), u), (rf('exp', mul(REAL, two, rf('log', u))), power(REAL, u, 2)),
+                 (power(REAL, rf('sqrt', u), 2), absv(REAL, u)), (rpow(u, one), u), (rf('log', one), lit(REAL, 0)),
+                 (rf('sqrt', lit(REAL, 4)), two), (rf('sqrt', lit(REAL, -4)), lit(REAL, -2)), (rf('sqrt', lit(REAL, -4)), two),
+                 (mul(REAL, rf('exp', u), rf('exp', neg(REAL, u))), one), (div(rf('sqrt', u), rf('sqrt', u)), one),
+                 (rpow(u, lit(REAL, 0)), one), (rf('exp', rf('log', u)), absv(REAL, u))]
+        a, b = self.pick(pairs)
+        if self.chance(0.25):
+            a, b = b, a
+        prems = []
+        k = r.randrange(10)
+        if k < 5:
+            fam = 's0-partial'
+            concl = self.pick([eq(REAL, a, b), eq(REAL, a, b), ge(REAL, a, b), le(REAL, a, b), NOT(eq(REAL, a, add(REAL, b, one)))])
+        else:
+            fam = 's1-partial'
+            lo, hi = self.endpoints()
+            closed = self.chance(0.6)
+            prems = [mem(REAL, x, interval(closed, lit(REAL, lo), lit(REAL, hi)))]
+            concl = self.pick([eq(REAL, a, b), ge(REAL, a, b), le(REAL, a, b), NOT(eq(REAL, a, add(REAL, b, one))),
+                               ge(REAL, rf('sqrt', u), lit(REAL, 0)), gt(REAL, rf('exp', rf('log', u)), lit(REAL, 0)),
+                               NOT(eq(REAL, rf('sqrt', u), lit(REAL, 0))), ge(REAL, rpow(u, half), lit(REAL, 0))])
+        hyps = [[] for _ in prems]
+        return {'entry': 'sympy', 'fam': fam, 'prems': prems, 'concl': concl, 'hyps': hyps}
+
     def sympy_case(self):
         r = self.r
+        if self.chance(0.12):
+            return self.sympy_partial()
         x, y = V('x', REAL), V('y', REAL)
         k = r.randrange(100)
         prems, fam = [], None
@@ -1166,6 +1282,8 @@ def run_z3(case, H):
     entry, fam, prems_j, concl_j, prems, concl, hyps = _parse_case(case)
     verdict, th = call_z3(entry, prems, concl, hyps)
     klass = ['fam:' + fam, entry + ':' + verdict]
+    if any(binder_name_clash(t) for t in list(prems_j) + [concl_j]):
+        klass.append('binder-name-clash')
     if verdict == 'timeout':
         H.inconc('wrapper-timeout')
         H.case(case, False, klass)
@@ -1192,6 +1310,8 @@ def run_z3(case, H):
     cm, status = find_countermodel(P, Cn, harness.digest(case) & 0xffffffff, H)
     if cm is not None:
         feature = L.explain(P, Cn)
+        if feature == 'unexplained' and 'binder-name-clash' in klass:
+            feature = 'binder-name-clash'
         how, env, univ = cm
         H.violation('z3:accepts-invalid:' + feature, case,
                     '%s accepted %s ; counter-model (%s, |tv|=%s): %s' % (
@@ -1306,6 +1426,11 @@ def sympy_feature(prems, concl, env):
         return 'div-zero'
     if nat_minus:
         return 'nat-minus'
+    for u in _subterms(concl):
+        if u.is_comb('sqrt', 1) or u.is_comb('log', 1) or (u.is_comb('power', 2) and arith.term_type(u.arg) == 'real'):
+            v = arith.eval_num(u.arg if not u.is_comb('power', 2) else u.arg1, env)
+            if v is None or arith.compare(v, Fraction(0)) in (0, -1):
+                return 'outside-domain-of-sqrt-log-rpow'
     neq = concl.is_not() and concl.arg.is_equals()
     if prems:
         ivar = prems[0].arg1.name
